@@ -249,6 +249,64 @@ def _ranges2(consts):
 two.ranges = _ranges2
 
 
+def clsedit(exc: bool, a: int, sub: bool) -> None:
+    """edit_constant handed a class: flags are restored on normal and exceptional exit, nothing but the body's own
+    exception escapes, instances created before keep their object."""
+    exc, sub = pickbool(exc), pickbool(sub)
+    a = pick(a, 0, 2)
+    with untraced():
+        class P(param.Parameterized):
+            c = param.Parameter(default=O[0], constant=True)
+
+        class Q(P):
+            pass
+        p = Q()
+    K = Q if sub else P
+    raised = None
+    try:
+        with edit_constant(K):
+            K.c = O[a]
+            if exc:
+                raise Boom()
+    except Boom:
+        raised = 'Boom'
+    except Exception as e:      # noqa
+        raised = type(e).__name__
+    info = {'class_level_edit_constant': True, 'exceptional': exc, 'subclass': sub}
+    check('C14.flags_restored', raised == ('Boom' if exc else None), dict(info, raised=raised))
+    check('C14.flags_restored', all(X.param.c.constant is True and X.param.name.constant is True for X in (P, Q)) and p.param.c.constant is True, info)
+    check('C14.class_set_leaves_instances', p.c is O[0], info)
+    try:
+        p.c = O[1]
+        res = 'ok'
+    except TypeError:
+        res = 'TypeError'
+    check('C14.const_guard', res == 'TypeError', dict(info, res=res))
+
+
+clsedit.ranges = lambda consts: dict(a=(0, 2))
+
+
+def timecall(v: int) -> None:
+    """param.Time changes its constant time_type when called with one: afterwards the parameter is protected again."""
+    v = pick(v, 1, 3)
+    with untraced():
+        t = param.Time()
+    t(v, time_type=float)
+    info = {'time_call': True}
+    check('C14.const_identity', t.time_type is float and t() == float(v), info)
+    try:
+        t.time_type = int
+        res = 'ok'
+    except TypeError:
+        res = 'TypeError'
+    check('C14.const_guard', res == 'TypeError', dict(info, res=res))
+    check('C14.flags_restored', t.param.time_type.constant is True and param.Time.param.time_type.constant is True, info)
+
+
+timecall.ranges = lambda consts: dict(v=(1, 3))
+
+
 def shards(tier):
     out = []
     q = tier == 'quick'
@@ -267,6 +325,8 @@ def shards(tier):
                     c.update({'o%d' % j: 0, 'a%d' % j: 0})
                 out.append(dict(name='c%d_o%d%d' % (ctor, o1, o2), module='harness.c14', fn='prog', consts=c,
                                 budget_s=60 if q else 600))
+    out.append(dict(name='clsedit', module='harness.c14', fn='clsedit', consts={}, budget_s=30))
+    out.append(dict(name='timecall', module='harness.c14', fn='timecall', consts={}, budget_s=30))
     k2 = 4 if q else 5
     for o1 in ((1, 3, 4, 5) if q else (0, 1, 3, 4, 5)):
         for o2 in range(N2):
